@@ -1953,8 +1953,10 @@ def chk_C15(c, ans):
                 out.append(fail(i, 'log2_pow2_exact', 'log2(2^%d) = %s' % (kk, a)))
         elif k == 'ln_1p':
             v = mpv(*mt['x'])
-            if v > -1 and (v == 0 or abs(v) >= P2(-1000)):
-                t = m.log1p(v)
+            xq = V(*mt['x'])
+            if xq > -1 and (xq == 0 or abs(xq) >= Fr(1, 2 ** 1000)):
+                # next to -1 the sum 1 + x needs up to 1074 + 53 bits: form it exactly as a rational (a 600-bit -1 + lo would be rounded)
+                t = m.log(mp_of_fr(1 + xq)) if xq <= Fr(-1, 2) else m.log1p(v)
                 tight = abs(v) <= P2(-8) or v >= m.mpf('0.75')
                 err_fail(i, out, 'ln_1p_bound' if tight else 'ln_1p_bound_mid', hl, t, abs(t) * (P2(-100) if tight else P2(-45)))
         elif k == 'dom':
